@@ -20,6 +20,7 @@ package ro
 //@   note the subscribe function of a shared observable
 //@   type shareEnv
 //@   props C11 C13
+//@   binds mu refCount getOrCreateSubject config source
 //@   inline ShareWithConfig$1$1
 //@   track source.* currentSubject.* config.* sourceSubscription.* call.NewSubscription call.NewSubscriber NewSubscription().* getOrCreateSubject()#0.* getOrCreateSubject()#1.*
 //@   ensures [counts-one-subscriber|C11] atunlock(refCount) == atlock(refCount) + 1
@@ -32,6 +33,7 @@ package ro
 //@   note reset(currentSubject, currentSourceSubscription): called with mu held by its callers
 //@   type shareEnv
 //@   props C11 C14
+//@   binds currentSubject currentSourceSubscription subject
 //@   holding mu
 //@   track currentSourceSubscription.*
 //@   ensures [releases-the-upstream-of-that-generation|C11] trace(currentSourceSubscription.Unsubscribe())
@@ -42,6 +44,7 @@ package ro
 //@   note the teardown of one subscriber
 //@   type shareEnv
 //@   props C11 C13
+//@   binds sub mu refCount config hasBeenResetOnError hasBeenResetOnCompletion currentSourceSubscription
 //@   inline ShareWithConfig$1$2
 //@   track sub.* currentSourceSubscription.*
 //@   ensures [leaves-the-subject|C11] called(sub.Unsubscribe)
@@ -84,16 +87,19 @@ package ro
 
 //@ func ShareReplayWithConfig
 //@   props C11
+//@   binds config
 //@   track call.ShareWithConfig
 //@   ensures [replays-after-completion-resets-on-refcount-as-configured|C11] trace(call.ShareWithConfig(fields(_, true, false, config.ResetOnRefCountZero)))
 
 //@ func ShareReplayWithConfig$1
 //@   note the connector: a replay subject of the configured size
 //@   props C11
+//@   binds bufferSize
 //@   track call.NewReplaySubject
 //@   ensures [connector-is-a-replay-subject-of-the-configured-size|C11] trace(call.NewReplaySubject(bufferSize))
 
 //@ func ShareReplay$1
 //@   props C11
+//@   binds bufferSize
 //@   track call.NewReplaySubject
 //@   ensures [connector-is-a-replay-subject-of-the-configured-size|C11] trace(call.NewReplaySubject(bufferSize))
